@@ -75,8 +75,17 @@ def check_src(ctx) -> None:
     p = ctx.p
     f = p.func("xsd.main:_translate_to_simple_type")
     parents = S.parents_of(f)
-    assigns = [n for n in walk_function_body(f.node) if isinstance(n, ast.Assign) and len(n.targets) == 1 and isinstance(n.targets[0], ast.Name)]
-    for var, attr in (("min_length", "min_value"), ("max_length", "max_value")):
+    assigns = [n for n in walk_function_body(f.node) if isinstance(n, (ast.Assign, ast.AnnAssign)) and (len(n.targets) == 1 if isinstance(n, ast.Assign) else True)
+               and isinstance((n.targets[0] if isinstance(n, ast.Assign) else n.target), ast.Name) and n.value is not None]
+    for a in assigns:
+        if isinstance(a, ast.AnnAssign):
+            a.targets = [a.target]  # uniform access below
+    # the local variables are whatever is handed to the constructor of the restriction (names are not frozen)
+    ctor0 = [n for n in walk_function_body(f.node) if isinstance(n, ast.Call) and dotted_of(n.func) == "_SimpleTypeRestriction"]
+    ctx.require_anchor(len(ctor0) == 1, "one _SimpleTypeRestriction(...) call")
+    local = {k: dotted_of(kwarg(ctor0[0], k)) for k in ("min_length", "max_length", "pattern")}
+    ctx.require_anchor(all(v is not None for v in local.values()), "the restriction is built from local variables")
+    for var, attr in ((local["min_length"], "min_value"), (local["max_length"], "max_value")):
         srcs = [a for a in assigns if a.targets[0].id == var and not (isinstance(a.value, ast.Constant) and a.value.value is None)]
         what = f"{var} <- constraints.len_constraint.{attr}"
         if len(srcs) == 1 and ast.unparse(srcs[0].value) == f"constraints.len_constraint.{attr}":
@@ -113,7 +122,7 @@ def check_src(ctx) -> None:
     else:
         ctx.fail("SRC", f, f.node, "with several patterns not every one enters the intersection that is translated", construct="several patterns arm")
     # the translated pattern is what the restriction gets
-    pat_assign = [a for a in assigns if a.targets[0].id == "pattern" and dotted_of(a.value) == "translated_pattern"]
+    pat_assign = [a for a in assigns if a.targets[0].id == local["pattern"] and dotted_of(a.value) == "translated_pattern"]
     if pat_assign:
         ctx.ok("SRC", f, pat_assign[0], what="pattern <- translated_pattern")
     else:
@@ -122,14 +131,24 @@ def check_src(ctx) -> None:
     ctor = [n for n in walk_function_body(f.node) if isinstance(n, ast.Call) and dotted_of(n.func) == "_SimpleTypeRestriction"]
     ctx.require_anchor(len(ctor) == 1, "one _SimpleTypeRestriction(...) call")
     c = ctor[0]
-    bad = [k for k in ("min_length", "max_length", "pattern") if dotted_of(kwarg(c, k)) != k]
+    # each keyword gets the variable that was fed from the matching source (checked above): min <- min_value etc.
+    fed = {}
+    for a in assigns:
+        txt = ast.unparse(a.value)
+        if txt.endswith("len_constraint.min_value"):
+            fed["min_length"] = a.targets[0].id
+        elif txt.endswith("len_constraint.max_value"):
+            fed["max_length"] = a.targets[0].id
+        elif dotted_of(a.value) == "translated_pattern":
+            fed["pattern"] = a.targets[0].id
+    bad = [k for k in ("min_length", "max_length", "pattern") if dotted_of(kwarg(c, k)) != fed.get(k)]
     if bad:
         ctx.fail("SRC", f, c, f"_SimpleTypeRestriction is built with {[(k, short(kwarg(c, k)) if kwarg(c, k) is not None else None) for k in bad]}: the facet gets another value", construct="restriction arguments")
     else:
-        ctx.ok("SRC", f, c, what="_SimpleTypeRestriction(min_length=min_length, max_length=max_length, pattern=pattern)")
+        ctx.ok("SRC", f, c, what="_SimpleTypeRestriction(min_length=<min>, max_length=<max>, pattern=<translated pattern>)")
     g = S.guards_of(c, parents)
     cond = ast.unparse(g[-1][0]) if g else ""
-    need = {"min_length is not None", "max_length is not None", "pattern is not None"}
+    need = {f"{local['min_length']} is not None", f"{local['max_length']} is not None", f"{local['pattern']} is not None"}
     got = set()
     if g and isinstance(g[-1][0], ast.BoolOp) and isinstance(g[-1][0].op, ast.Or):
         got = {ast.unparse(v) for v in g[-1][0].values}
